@@ -199,6 +199,7 @@ func (v *FnV) callWithArgs(st *State, call *ast.CallExpr, preArgs []Value) []Val
 			return v.inlineLit(st, cr.lit, cr.frame, args)
 		}
 		v.abstract(call, "call of function value (havoc)")
+		v.escapeClosures(st, args)
 		v.yield(st)
 		return v.havocResults(st, call, "fv")
 	}
@@ -229,6 +230,7 @@ func (v *FnV) callWithArgs(st *State, call *ast.CallExpr, preArgs []Value) []Val
 			return m.f(v, st, call, recv, args)
 		}
 		v.abstract(call, "interface method call "+shortName(full)+" without contract (havoc)")
+		v.escapeClosures(st, args)
 		v.yield(st)
 		return v.havocResults(st, call, fn.Name())
 	}
@@ -248,6 +250,7 @@ func (v *FnV) callWithArgs(st *State, call *ast.CallExpr, preArgs []Value) []Val
 		return v.inlineDecl(st, call, full, fn, recv, args)
 	}
 	v.abstract(call, "call to "+shortName(full)+" without contract (havoc)")
+	v.escapeClosures(st, args)
 	v.yield(st)
 	return v.havocResults(st, call, fn.Name())
 }
@@ -534,6 +537,7 @@ func (v *FnV) contractCall(st *State, call *ast.CallExpr, fc *FuncContract, fn *
 	}
 	old := st.fork()
 	if !fc.Pure {
+		v.escapeClosures(st, args)
 		st.havocAllHeaps()
 		v.yieldShared(st)
 	}
